@@ -13,6 +13,7 @@ import Anko.Props.ChanFlowTable
 import Anko.Props.Tie.ChanFlow
 import Anko.Props.Tie.StmtFlow
 import Anko.Props.Tie.CallFlow
+import Anko.Props.Tie.Inventory
 
 namespace Anko.C16
 open Anko.Chan
@@ -250,5 +251,14 @@ property is not overlooked. -/
 theorem source_tie_StmtFlow : Gen.StmtFlow.leaves = Tables.stmtFlow := Tie.stmtFlow
 /-- the call machinery (vmExprFunction.go) -/
 theorem source_tie_CallFlow : Gen.CallFlow.leaves = Tables.callFlow := Tie.callFlow
+
+
+/-! ### Declaration inventory
+
+Nothing was added to the packages this property is anchored in: their top-level declarations (functions, methods, variables, constants, types with
+the fields of struct types), regenerated from /repo on this run, are the audited ones (Props/Tie/Inventory). A helper, a package-level table or a
+file added there - code no flow table can pin - breaks the tie by name and makes this property's check search for a failing input. -/
+/-- vm/ -/
+theorem declarations_of_Vm_are_the_audited_ones : Tie.ofPkg "vm" Gen.Inventory.decls = Tie.ofPkg "vm" Tables.inventory := Tie.inventoryVm
 
 end Anko.C16
